@@ -128,8 +128,9 @@ def check(run):
                     core = cf[1] if neg else cf
                     if core[0] == "eq":
                         return (not mismatch) != neg
-                    if core[0] in ("zero", "null") or (core[0] == "expr" and "prefix" in str(core)):
-                        # `!*prefix`: end of the prefix reached
+                    mentions_prefix = any(x.get("k") == "DeclRefExpr" and x["ref"].get("did") == pdid for x in astq.walk(c))
+                    if mentions_prefix and core[0] in ("zero", "null", "expr"):
+                        # `!*prefix` / `*prefix == 0`: end of the prefix reached; a bare `*prefix`: not yet
                         v = at_end if core[0] in ("zero", "null") else (not at_end)
                         return v != neg
                     return None
